@@ -499,6 +499,25 @@ pub fn run(cx: &mut Ctx) {
             });
         }
     }
+    if !miri {
+        // one string of a little more than 1 MiB (the name, a short-form string, an extended string)
+        cx.case("string_longer_than_1MiB", |c| {
+            c.sit("string_longer_than_1MiB");
+            let long: String = (0..(1usize << 20) + 16).map(|i| (b'a' + (i % 23) as u8) as char).collect();
+            for place in 0..3 {
+                let mut a = blank_spec();
+                let mut b = blank_spec();
+                a.name = Some("first".into());
+                b.name = Some("second".into());
+                match place {
+                    0 => a.name = Some(long.clone()),
+                    1 => *str_field(&mut a, 2) = Some(long.clone()),
+                    _ => *str_field(&mut b, NSTR - 1) = Some(long.clone()),
+                }
+                check(c, 1, &[a, b], "string_longer_than_1MiB");
+            }
+        });
+    }
     let n = cx.a.n(100_000, 1_000_000);
     for _ in 0..n {
         cx.case("random", |c| {
